@@ -286,6 +286,7 @@ pub enum Algo {
     DfsEdgeFiltered,
     DfsPrune,
     DfsBreak,
+    DfsRecycledMap,
 }
 
 pub const ALL_ALGOS: &[Algo] = &[
@@ -341,6 +342,7 @@ pub const ALL_ALGOS: &[Algo] = &[
     Algo::DfsEdgeFiltered,
     Algo::DfsPrune,
     Algo::DfsBreak,
+    Algo::DfsRecycledMap,
 ];
 
 impl Algo {
@@ -398,6 +400,7 @@ impl Algo {
             Algo::DfsEdgeFiltered => "dfs_over_edge_filtered",
             Algo::DfsPrune => "depth_first_search_prune",
             Algo::DfsBreak => "depth_first_search_break",
+            Algo::DfsRecycledMap => "dfs_reset_onto_recycled_map",
         }
     }
     /// Is the algorithm in its documented domain on this abstract graph?
@@ -456,7 +459,7 @@ fn judge_inner(algo: Algo, a: &Abs, p: &Params, r0: &Res, ri: &Res) -> Result<()
         }
     };
     match algo {
-        Algo::Dfs | Algo::Bfs | Algo::DfsPostOrder | Algo::DepthFirstSearch | Algo::DfsDefaultReset | Algo::DfsPostOrderDefaultReset | Algo::DfsMoveTo | Algo::DfsReversed | Algo::BfsReversed | Algo::DfsNodeFiltered | Algo::DfsEdgeFiltered => eq("visited set"),
+        Algo::Dfs | Algo::Bfs | Algo::DfsPostOrder | Algo::DepthFirstSearch | Algo::DfsDefaultReset | Algo::DfsPostOrderDefaultReset | Algo::DfsMoveTo | Algo::DfsReversed | Algo::BfsReversed | Algo::DfsNodeFiltered | Algo::DfsEdgeFiltered | Algo::DfsRecycledMap => eq("visited set"),
         Algo::DfsPrune => eq("discovered set / number of edge events"),
         Algo::DfsBreak => eq("break value"),
         Algo::Topo | Algo::TopoDefaultReset | Algo::TopoWithInitials | Algo::Toposort | Algo::ToposortSpace | Algo::ToposortDefaultSpace => match (r0, ri) {
@@ -892,6 +895,28 @@ macro_rules! run_algo {
             (None, None) => Res::Num(-1),
             (x, y) => Res::Failed(format!("Break(value) run gives {:?}, breaking() run gives {:?}", x, y)),
         }
+    }};
+    (@ DfsRecycledMap, $g:expr, $id:expr, $lb:expr, $a:expr, $p:expr) => {{
+        // a walker whose visit map is older than the graph: as large as the number of nodes
+        // (which lies between node_count and node_bound when there are vacant indices), one
+        // less, and a single dirty bit -- `reset` must make each of them fit this graph
+        use petgraph::visit::NodeCount;
+        let k = NodeCount::node_count(&$g);
+        let mut results: Vec<BTreeSet<usize>> = Vec::new();
+        let mut dup = false;
+        for len in [k, k.saturating_sub(1), 1usize] {
+            let mut map = fixedbitset::FixedBitSet::with_capacity(len);
+            if len > 0 { map.insert(0); }
+            let mut dfs = Dfs::from_parts(Vec::new(), map);
+            dfs.reset($g);
+            dfs.move_to($id($p.s));
+            let mut seen = BTreeSet::new();
+            while let Some(x) = dfs.next($g) { if !seen.insert($lb(x)) { dup = true; } }
+            results.push(seen);
+        }
+        if dup { Res::Failed("a node was emitted twice".into()) }
+        else if results[0] != results[1] || results[0] != results[2] { Res::Failed(format!("the walk depends on the size of the recycled map: {:?}", results)) }
+        else { Res::Set(results.swap_remove(0)) }
     }};
     (@ Topo, $g:expr, $id:expr, $lb:expr, $a:expr, $p:expr) => {{
         let order: Vec<usize> = Topo::new($g).iter($g).map(|x| $lb(x)).collect();
@@ -1687,7 +1712,7 @@ macro_rules! impl_replica_set {
                     }
                 }
                 // ---- entry points with two-graph or Graph-only signatures
-                extras::<$Ty>(cfg, a, p, acc, &g0, g1.as_ref(), g4.as_ref(), seed)?;
+                extras::<$Ty>(cfg, a, p, acc, &g0, g1.as_ref(), g4.as_ref(), g2.as_ref(), g3.as_ref().map(|x| (&x.0, &x.1[..])), seed)?;
                 Ok(ok_replicas)
             }
         }
@@ -1704,6 +1729,8 @@ fn extras<Ty: EdgeType + Clone + 'static>(
     g0: &Graph<u32, f64, Ty, u32>,
     g1: Option<&Graph<u32, f64, Ty, u8>>,
     g4: Option<&GraphMap<u32, f64, Ty, SimBuildHasher>>,
+    g2: Option<&StableGraph<u32, f64, Ty, u16>>,
+    g3: Option<(&MatrixGraph<u32, f64, SimBuildHasher, Ty, Option<f64>, u16>, &[NodeIndex<u16>])>,
     seed: u64,
 ) -> Result<(), (String, String)> {
     let dirtag = if a.directed { "@directed" } else { "@undirected" };
@@ -1715,6 +1742,64 @@ fn extras<Ty: EdgeType + Clone + 'static>(
                 return Err((class, format!("{} {}", format!($($arg)*), ctx)));
             }
         }};
+    }
+    // a DfsSpace depends on the node id and map types only, so one sized for the MatrixGraph
+    // replica can be handed to the StableGraph replica and the other way round: the two have
+    // different index bounds for the same abstract graph
+    if let (Some(s2), Some((m3, ids3))) = (g2, g3) {
+        acc.op("dfs_space_shared_between_encodings", 63);
+        let id2 = |l: usize| s2.node_indices().find(|&i| s2[i] == l as u32).unwrap();
+        let (s_, t_) = (_p.s, _p.t);
+        let r = catch(|| {
+            let plain2 = algo::has_path_connecting(s2, id2(s_), id2(t_), None);
+            let plain3 = algo::has_path_connecting(m3, ids3[s_], ids3[t_], None);
+            let mut space = algo::DfsSpace::new(m3);
+            let _ = algo::has_path_connecting(m3, ids3[t_], ids3[s_], Some(&mut space));
+            let shared2 = algo::has_path_connecting(s2, id2(s_), id2(t_), Some(&mut space));
+            let shared3 = algo::has_path_connecting(m3, ids3[s_], ids3[t_], Some(&mut space));
+            let mut space = algo::DfsSpace::new(s2);
+            let _ = algo::has_path_connecting(s2, id2(t_), id2(s_), Some(&mut space));
+            let back3 = algo::has_path_connecting(m3, ids3[s_], ids3[t_], Some(&mut space));
+            let back2 = algo::has_path_connecting(s2, id2(s_), id2(t_), Some(&mut space));
+            let topo = if a.directed {
+                let mut space = algo::DfsSpace::new(m3);
+                let t2 = algo::toposort(s2, Some(&mut space)).map(|o| o.into_iter().map(|i| s2[i] as usize).collect::<Vec<_>>()).map_err(|_| ());
+                Some((t2, ))
+            } else {
+                None
+            };
+            (plain2, plain3, shared2, shared3, back3, back2, topo)
+        });
+        match r {
+            Ok((plain2, plain3, shared2, shared3, back3, back2, topo)) => {
+                if plain2 != shared2 || plain2 != back2 {
+                    fail!("has_path_connecting_shared_space", "differs", "StableGraph<u16>", "has_path_connecting({}, {}) = {} without a workspace, {} / {} with one that served the MatrixGraph encoding", s_, t_, plain2, shared2, back2);
+                }
+                if plain3 != shared3 || plain3 != back3 {
+                    fail!("has_path_connecting_shared_space", "differs", "MatrixGraph<u16>", "has_path_connecting({}, {}) = {} without a workspace, {} / {} with one that served the StableGraph encoding", s_, t_, plain3, shared3, back3);
+                }
+                if let Some((t2, )) = topo {
+                    for (name, t) in [("StableGraph<u16>", &t2)] {
+                        match t {
+                            Ok(order) => {
+                                if let Err(d) = is_topo_order(a, order) {
+                                    let acyclic = (0..a.n).all(|v| !on_cycle(a, v));
+                                    if acyclic {
+                                        fail!("toposort_shared_space", "differs", name, "toposort with a workspace shared between encodings: {}", d);
+                                    }
+                                }
+                            }
+                            Err(()) => {
+                                if (0..a.n).all(|v| !on_cycle(a, v)) {
+                                    fail!("toposort_shared_space", "differs", name, "toposort with a workspace shared between encodings reports a cycle in an acyclic graph");
+                                }
+                            }
+                        }
+                    }
+                }
+            }
+            Err(pn) => fail!("dfs_space_shared_between_encodings", "panic", "StableGraph<u16>/MatrixGraph<u16>", "panicked: {}", pn),
+        }
     }
     if a.simple && a.n <= 8 {
         set_seed(seed);
@@ -1815,16 +1900,16 @@ fn extras<Ty: EdgeType + Clone + 'static>(
 }
 
 impl_replica_set!(Directed,
-    graph: [DfsDefaultReset, DfsPostOrderDefaultReset, DfsMoveTo, HasPathDefaultSpace, TopoDefaultReset, ToposortDefaultSpace, Dfs, Bfs, DfsPostOrder, DepthFirstSearch, Topo, Toposort, ToposortSpace, KosarajuScc, TarjanScc, TarjanSccReused, IsCyclicDirected, HasPath, HasPathSpace, ConnectedComponents, Dominators, Dijkstra, DijkstraGoal, Astar, KShortest, BellmanFord, NegativeCycle, Spfa, FloydWarshall, Mst, GreedyMatching, MaximumMatching, FordFulkerson, PageRank, FeedbackArcSet, SimplePaths, DfsNodeFiltered, DfsEdgeFiltered, DfsBreak, FloydWarshallPath, SccAlias, TopoWithInitials, DfsReversed, BfsReversed, DfsPrune],
-    stable: [DfsDefaultReset, DfsPostOrderDefaultReset, DfsMoveTo, HasPathDefaultSpace, TopoDefaultReset, ToposortDefaultSpace, Dfs, Bfs, DfsPostOrder, DepthFirstSearch, Topo, Toposort, ToposortSpace, KosarajuScc, TarjanScc, TarjanSccReused, IsCyclicDirected, HasPath, HasPathSpace, Dominators, Dijkstra, DijkstraGoal, Astar, KShortest, BellmanFord, NegativeCycle, Spfa, Mst, GreedyMatching, MaximumMatching, FordFulkerson, PageRank, FeedbackArcSet, SimplePaths, DfsNodeFiltered, DfsEdgeFiltered, DfsBreak, SccAlias, TopoWithInitials, DfsReversed, BfsReversed, DfsPrune],
-    matrix: [DfsDefaultReset, DfsPostOrderDefaultReset, DfsMoveTo, HasPathDefaultSpace, TopoDefaultReset, ToposortDefaultSpace, Dfs, Bfs, DfsPostOrder, DepthFirstSearch, Topo, Toposort, ToposortSpace, KosarajuScc, TarjanScc, TarjanSccReused, IsCyclicDirected, HasPath, HasPathSpace, Dominators, Dijkstra, DijkstraGoal, Astar, KShortest, BellmanFord, NegativeCycle, Spfa, Mst, GreedyMatching, MaximumMatching, PageRank, FeedbackArcSet, SimplePaths, DfsNodeFiltered, DfsEdgeFiltered, DfsBreak, SccAlias, TopoWithInitials, DfsReversed, BfsReversed, DfsPrune],
+    graph: [DfsDefaultReset, DfsPostOrderDefaultReset, DfsMoveTo, HasPathDefaultSpace, TopoDefaultReset, ToposortDefaultSpace, Dfs, Bfs, DfsPostOrder, DepthFirstSearch, Topo, Toposort, ToposortSpace, KosarajuScc, TarjanScc, TarjanSccReused, IsCyclicDirected, HasPath, HasPathSpace, ConnectedComponents, Dominators, Dijkstra, DijkstraGoal, Astar, KShortest, BellmanFord, NegativeCycle, Spfa, FloydWarshall, Mst, GreedyMatching, MaximumMatching, FordFulkerson, PageRank, FeedbackArcSet, SimplePaths, DfsNodeFiltered, DfsEdgeFiltered, DfsBreak, FloydWarshallPath, SccAlias, TopoWithInitials, DfsReversed, BfsReversed, DfsPrune, DfsRecycledMap],
+    stable: [DfsDefaultReset, DfsPostOrderDefaultReset, DfsMoveTo, HasPathDefaultSpace, TopoDefaultReset, ToposortDefaultSpace, Dfs, Bfs, DfsPostOrder, DepthFirstSearch, Topo, Toposort, ToposortSpace, KosarajuScc, TarjanScc, TarjanSccReused, IsCyclicDirected, HasPath, HasPathSpace, Dominators, Dijkstra, DijkstraGoal, Astar, KShortest, BellmanFord, NegativeCycle, Spfa, Mst, GreedyMatching, MaximumMatching, FordFulkerson, PageRank, FeedbackArcSet, SimplePaths, DfsNodeFiltered, DfsEdgeFiltered, DfsBreak, SccAlias, TopoWithInitials, DfsReversed, BfsReversed, DfsPrune, DfsRecycledMap],
+    matrix: [DfsDefaultReset, DfsPostOrderDefaultReset, DfsMoveTo, HasPathDefaultSpace, TopoDefaultReset, ToposortDefaultSpace, Dfs, Bfs, DfsPostOrder, DepthFirstSearch, Topo, Toposort, ToposortSpace, KosarajuScc, TarjanScc, TarjanSccReused, IsCyclicDirected, HasPath, HasPathSpace, Dominators, Dijkstra, DijkstraGoal, Astar, KShortest, BellmanFord, NegativeCycle, Spfa, Mst, GreedyMatching, MaximumMatching, PageRank, FeedbackArcSet, SimplePaths, DfsNodeFiltered, DfsEdgeFiltered, DfsBreak, SccAlias, TopoWithInitials, DfsReversed, BfsReversed, DfsPrune, DfsRecycledMap],
     gmap: [DfsDefaultReset, DfsPostOrderDefaultReset, DfsMoveTo, HasPathDefaultSpace, TopoDefaultReset, ToposortDefaultSpace, Dfs, Bfs, DfsPostOrder, DepthFirstSearch, Topo, Toposort, ToposortSpace, KosarajuScc, TarjanScc, TarjanSccReused, IsCyclicDirected, HasPath, HasPathSpace, ConnectedComponents, Dominators, Dijkstra, DijkstraGoal, Astar, KShortest, BellmanFord, NegativeCycle, Spfa, FloydWarshall, Mst, GreedyMatching, MaximumMatching, PageRank, SimplePaths, DfsNodeFiltered, DfsEdgeFiltered, DfsBreak, FloydWarshallPath, SccAlias, TopoWithInitials, DfsReversed, BfsReversed, DfsPrune],
-    csr: [DfsDefaultReset, DfsPostOrderDefaultReset, DfsMoveTo, HasPathDefaultSpace, Dfs, Bfs, DfsPostOrder, DepthFirstSearch, TarjanScc, TarjanSccReused, IsCyclicDirected, HasPath, HasPathSpace, ConnectedComponents, Dominators, Dijkstra, DijkstraGoal, Astar, KShortest, BellmanFord, NegativeCycle, Spfa, FloydWarshall, Mst, GreedyMatching, MaximumMatching, PageRank, DfsNodeFiltered, DfsEdgeFiltered, DfsBreak, FloydWarshallPath, DfsPrune],
-    list: [DfsDefaultReset, DfsPostOrderDefaultReset, DfsMoveTo, HasPathDefaultSpace, Dfs, Bfs, DfsPostOrder, DepthFirstSearch, TarjanScc, TarjanSccReused, IsCyclicDirected, HasPath, HasPathSpace, ConnectedComponents, Dominators, Dijkstra, DijkstraGoal, Astar, KShortest, BellmanFord, NegativeCycle, Spfa, FloydWarshall, Mst, GreedyMatching, MaximumMatching, PageRank, DfsNodeFiltered, DfsEdgeFiltered, DfsBreak, FloydWarshallPath, DfsPrune]);
+    csr: [DfsDefaultReset, DfsPostOrderDefaultReset, DfsMoveTo, HasPathDefaultSpace, Dfs, Bfs, DfsPostOrder, DepthFirstSearch, TarjanScc, TarjanSccReused, IsCyclicDirected, HasPath, HasPathSpace, ConnectedComponents, Dominators, Dijkstra, DijkstraGoal, Astar, KShortest, BellmanFord, NegativeCycle, Spfa, FloydWarshall, Mst, GreedyMatching, MaximumMatching, PageRank, DfsNodeFiltered, DfsEdgeFiltered, DfsBreak, FloydWarshallPath, DfsPrune, DfsRecycledMap],
+    list: [DfsDefaultReset, DfsPostOrderDefaultReset, DfsMoveTo, HasPathDefaultSpace, Dfs, Bfs, DfsPostOrder, DepthFirstSearch, TarjanScc, TarjanSccReused, IsCyclicDirected, HasPath, HasPathSpace, ConnectedComponents, Dominators, Dijkstra, DijkstraGoal, Astar, KShortest, BellmanFord, NegativeCycle, Spfa, FloydWarshall, Mst, GreedyMatching, MaximumMatching, PageRank, DfsNodeFiltered, DfsEdgeFiltered, DfsBreak, FloydWarshallPath, DfsPrune, DfsRecycledMap]);
 impl_replica_set!(Undirected,
-    graph: [DfsDefaultReset, DfsPostOrderDefaultReset, DfsMoveTo, HasPathDefaultSpace, Dfs, Bfs, DfsPostOrder, DepthFirstSearch, IsCyclicUndirected, HasPath, HasPathSpace, ConnectedComponents, Bipartite, Dijkstra, DijkstraGoal, Astar, KShortest, BellmanFord, NegativeCycle, Spfa, FloydWarshall, Mst, MstPrim, GreedyMatching, MaximumMatching, ArticulationPoints, Dsatur, MaximalCliques, Graph6, DfsNodeFiltered, DfsEdgeFiltered, DfsBreak, FloydWarshallPath],
-    stable: [DfsDefaultReset, DfsPostOrderDefaultReset, DfsMoveTo, HasPathDefaultSpace, Dfs, Bfs, DfsPostOrder, DepthFirstSearch, IsCyclicUndirected, HasPath, HasPathSpace, Bipartite, Dijkstra, DijkstraGoal, Astar, KShortest, BellmanFord, NegativeCycle, Spfa, Mst, MstPrim, GreedyMatching, MaximumMatching, ArticulationPoints, Dsatur, MaximalCliques, Graph6, DfsNodeFiltered, DfsEdgeFiltered, DfsBreak],
-    matrix: [DfsDefaultReset, DfsPostOrderDefaultReset, DfsMoveTo, HasPathDefaultSpace, Dfs, Bfs, DfsPostOrder, DepthFirstSearch, IsCyclicUndirected, HasPath, HasPathSpace, Bipartite, Dijkstra, DijkstraGoal, Astar, KShortest, BellmanFord, NegativeCycle, Spfa, Mst, MstPrim, GreedyMatching, MaximumMatching, ArticulationPoints, Dsatur, MaximalCliques, Graph6, DfsNodeFiltered, DfsEdgeFiltered, DfsBreak],
+    graph: [DfsDefaultReset, DfsPostOrderDefaultReset, DfsMoveTo, HasPathDefaultSpace, Dfs, Bfs, DfsPostOrder, DepthFirstSearch, IsCyclicUndirected, HasPath, HasPathSpace, ConnectedComponents, Bipartite, Dijkstra, DijkstraGoal, Astar, KShortest, BellmanFord, NegativeCycle, Spfa, FloydWarshall, Mst, MstPrim, GreedyMatching, MaximumMatching, ArticulationPoints, Dsatur, MaximalCliques, Graph6, DfsNodeFiltered, DfsEdgeFiltered, DfsBreak, FloydWarshallPath, DfsRecycledMap],
+    stable: [DfsDefaultReset, DfsPostOrderDefaultReset, DfsMoveTo, HasPathDefaultSpace, Dfs, Bfs, DfsPostOrder, DepthFirstSearch, IsCyclicUndirected, HasPath, HasPathSpace, Bipartite, Dijkstra, DijkstraGoal, Astar, KShortest, BellmanFord, NegativeCycle, Spfa, Mst, MstPrim, GreedyMatching, MaximumMatching, ArticulationPoints, Dsatur, MaximalCliques, Graph6, DfsNodeFiltered, DfsEdgeFiltered, DfsBreak, DfsRecycledMap],
+    matrix: [DfsDefaultReset, DfsPostOrderDefaultReset, DfsMoveTo, HasPathDefaultSpace, Dfs, Bfs, DfsPostOrder, DepthFirstSearch, IsCyclicUndirected, HasPath, HasPathSpace, Bipartite, Dijkstra, DijkstraGoal, Astar, KShortest, BellmanFord, NegativeCycle, Spfa, Mst, MstPrim, GreedyMatching, MaximumMatching, ArticulationPoints, Dsatur, MaximalCliques, Graph6, DfsNodeFiltered, DfsEdgeFiltered, DfsBreak, DfsRecycledMap],
     gmap: [DfsDefaultReset, DfsPostOrderDefaultReset, DfsMoveTo, HasPathDefaultSpace, Dfs, Bfs, DfsPostOrder, DepthFirstSearch, IsCyclicUndirected, HasPath, HasPathSpace, ConnectedComponents, Bipartite, Dijkstra, DijkstraGoal, Astar, KShortest, BellmanFord, NegativeCycle, Spfa, FloydWarshall, Mst, MstPrim, GreedyMatching, MaximumMatching, ArticulationPoints, Dsatur, MaximalCliques, Graph6, DfsNodeFiltered, DfsEdgeFiltered, DfsBreak, FloydWarshallPath],
-    csr: [DfsDefaultReset, DfsPostOrderDefaultReset, DfsMoveTo, HasPathDefaultSpace, Dfs, Bfs, DfsPostOrder, DepthFirstSearch, IsCyclicUndirected, HasPath, HasPathSpace, ConnectedComponents, Bipartite, Dijkstra, DijkstraGoal, Astar, KShortest, BellmanFord, NegativeCycle, Spfa, FloydWarshall, Mst, MstPrim, GreedyMatching, MaximumMatching, ArticulationPoints, Dsatur, MaximalCliques, Graph6, DfsNodeFiltered, DfsEdgeFiltered, DfsBreak, FloydWarshallPath],
+    csr: [DfsDefaultReset, DfsPostOrderDefaultReset, DfsMoveTo, HasPathDefaultSpace, Dfs, Bfs, DfsPostOrder, DepthFirstSearch, IsCyclicUndirected, HasPath, HasPathSpace, ConnectedComponents, Bipartite, Dijkstra, DijkstraGoal, Astar, KShortest, BellmanFord, NegativeCycle, Spfa, FloydWarshall, Mst, MstPrim, GreedyMatching, MaximumMatching, ArticulationPoints, Dsatur, MaximalCliques, Graph6, DfsNodeFiltered, DfsEdgeFiltered, DfsBreak, FloydWarshallPath, DfsRecycledMap],
     list: [Dfs]);
